@@ -17,6 +17,9 @@ const (
 	maSmma
 	maHma
 	maKinds
+	// maWma is usable wherever a trend.Ma is accepted, too; it is listed after maKinds so that the existing configuration
+	// boxes (Atr, SuperTrend, ...) keep their extent
+	maWma = maKinds
 )
 
 func volMa(kind, p int) trend.Ma[float64] {
@@ -29,6 +32,8 @@ func volMa(kind, p int) trend.Ma[float64] {
 		return trend.NewSmmaWithPeriod[float64](p)
 	case maHma:
 		return trend.NewHmaWithPeriod[float64](p)
+	case maWma:
+		return trend.NewWmaWith[float64](p)
 	}
 	panic("volMa: unknown kind")
 }
@@ -43,6 +48,8 @@ func volMaRef(kind int, a ref.S, p int) ref.S {
 		return ref.Rma(a, p)
 	case maHma:
 		return ref.Hma(a, p)
+	case maWma:
+		return ref.Wma(a, p)
 	}
 	panic("volMaRef: unknown kind")
 }
